@@ -591,3 +591,33 @@ def route_v(ctx, nq=40):
     ctx.extra["route_v"] = {"cases": len(cases), "agree": ok}
     if not ok:
         raise FrameworkError("route V: kernel evaluation and extracted model disagree or coqc failed:\n" + (o + e)[-1500:])
+
+
+# ---------------------------------------------------------------- coqchk (thorough tier)
+def coqchk(ctx):
+    """independent re-check of the compiled property file and everything it depends on; the axiom
+    list it prints goes into the evidence.  Cached per hash of all .vo files."""
+    vos = tree_hash([COQ], (".vo",))
+    cdir = os.path.join(BUILD, "coqchk")
+    os.makedirs(cdir, exist_ok=True)
+    cache = os.path.join(cdir, "%s-%s.json" % (ctx.pid, vos[:16]))
+    if os.path.exists(cache):
+        res = json.load(open(cache))
+    else:
+        t0 = time.time()
+        try:
+            rc, o, e = sh(["coqchk", "-silent", "-o", "-Q", COQ, "GoIpa", "GoIpa.Properties." + ctx.pid], timeout=5400)
+        except subprocess.TimeoutExpired:
+            rc, o, e = 124, "", "coqchk timeout"
+        txt = o + e
+        m = re.search(r"\* Axioms:(.*?)\n\s*\n\s*\* ", txt, re.S)
+        body = m.group(1) if m else ""
+        axioms = [] if "<none>" in body else re.findall(r"^\s+([A-Za-z_][\w.']*)", body, re.M)
+        res = {"rc": rc, "axioms": axioms, "wall_s": round(time.time() - t0), "tail": txt[-1500:]}
+        if rc in (0,):
+            json.dump(res, open(cache, "w"))
+    ctx.extra["coqchk"] = {"rc": res["rc"], "axioms": res["axioms"], "wall_s": res["wall_s"]}
+    if res["rc"] != 0:
+        ctx.proof["ok"] = False
+        ctx.proof["log"] = "coqchk failed:\n" + res["tail"] + "\n" + ctx.proof.get("log", "")
+    return res
